@@ -338,6 +338,75 @@ def t_conn_group_no_counterpart():
     return g.set_start_nodes({r}), dict(sel=[c1], conn=[cc], src=[grp], tgt=t, members={grp: m})
 
 
+def t_conn_cond_choice():
+    """the connection choice itself only exists under a selection option (all its connectors hang under option A1)"""
+    B, N, CN, *_ = _imp()
+    g = B()
+    r = N('R')
+    a = [N('A0'), N('A1')]
+    b = [N('B0'), N('B1')]
+    s = [CN('S0', deg_spec='?'), CN('S1', deg_spec='*')]
+    t = [CN('T0', deg_list=[1]), CN('T1', deg_spec='?')]
+    c1 = g.add_selection_choice('C1', r, a)
+    c2 = g.add_selection_choice('C2', a[1], b)
+    g.add_edges([(a[1], s[0]), (b[1], s[1]), (a[1], t[0]), (a[1], t[1])])
+    cc = g.add_connection_choice('K', s, t)
+    return g.set_start_nodes({r}), dict(sel=[c1, c2], conn=[cc], src=s, tgt=t)
+
+
+def t_conn_group_tgt():
+    """grouping connector on the target side with a conditional member; a source tied to another selection choice"""
+    B, N, CN, G, *_ = _imp()
+    g = B()
+    r = N('R')
+    a = [N('A0'), N('A1')]
+    b = [N('B0'), N('B1')]
+    s = [CN('S0', deg_spec='*', repeated_allowed=True), CN('S1', deg_spec='?')]
+    m = [CN('M0', deg_list=[0, 1]), CN('M1', deg_list=[1, 2], repeated_allowed=True)]
+    grp = G('GT')
+    c1 = g.add_selection_choice('C1', r, a)
+    c2 = g.add_selection_choice('C2', r, b)
+    g.add_edges([(r, s[0]), (b[1], s[1]), (r, m[0]), (a[1], m[1])])
+    cc = g.add_connection_choice('K', s, [(grp, m)])
+    return g.set_start_nodes({r}), dict(sel=[c1, c2], conn=[cc], src=s, tgt=[grp], members={grp: m})
+
+
+def t_conn_group3():
+    """three members: one permanent, two conditional on options of two different choices, mixed repeatability"""
+    B, N, CN, G, *_ = _imp()
+    g = B()
+    r = N('R')
+    a = [N('A0'), N('A1')]
+    b = [N('B0'), N('B1')]
+    m = [CN('M0', deg_list=[0, 1]), CN('M1', deg_list=[0, 2], repeated_allowed=True), CN('M2', deg_spec='?')]
+    grp = G('GRP')
+    t = [CN('T0', deg_spec='*', repeated_allowed=True), CN('T1', deg_spec='?')]
+    c1 = g.add_selection_choice('C1', r, a)
+    c2 = g.add_selection_choice('C2', r, b)
+    g.add_edges([(r, m[0]), (a[1], m[1]), (b[1], m[2]), (r, t[0]), (r, t[1])])
+    cc = g.add_connection_choice('K', [(grp, m)], t)
+    return g.set_start_nodes({r}), dict(sel=[c1, c2], conn=[cc], src=[grp], tgt=t, members={grp: m})
+
+
+def t_conn_chain():
+    """a connector that exists through a chain of two selection choices; a third choice that does not touch connectors
+    (two scenarios share every existence pattern)"""
+    B, N, CN, *_ = _imp()
+    g = B()
+    r = N('R')
+    a = [N('A0'), N('A1')]
+    b = [N('B0'), N('B1')]
+    z = [N('Z0'), N('Z1')]
+    s = [CN('S0', deg_spec='+'), CN('S1', deg_spec='?')]
+    t = [CN('T0', deg_spec='*'), CN('T1', deg_list=[0, 2])]
+    c1 = g.add_selection_choice('C1', r, a)
+    c2 = g.add_selection_choice('C2', a[1], b)
+    c3 = g.add_selection_choice('C3', r, z)
+    g.add_edges([(r, s[0]), (b[1], s[1]), (r, t[0]), (r, t[1])])
+    cc = g.add_connection_choice('K', s, t)
+    return g.set_start_nodes({r}), dict(sel=[c1, c2, c3], conn=[cc], src=s, tgt=t)
+
+
 def t_conn_two():
     B, N, CN, *_ = _imp()
     g = B()
@@ -377,7 +446,8 @@ TEMPLATES = {
     'conn_infeasible_scenario': t_conn_infeasible_scenario, 'conn_group': t_conn_group,
     'conn_group_finite': t_conn_group_finite, 'conn_group_open': t_conn_group_open, 'conn_group_open2': t_conn_group_open2, 'conn_excl': t_conn_excl, 'conn_two': t_conn_two, 'conn_dv': t_conn_dv,
     'conn_excl_shift': t_conn_excl_shift, 'conn_two_infeasible': t_conn_two_infeasible,
-    'conn_group_no_counterpart': t_conn_group_no_counterpart,
+    'conn_group_no_counterpart': t_conn_group_no_counterpart, 'conn_cond_choice': t_conn_cond_choice,
+    'conn_group_tgt': t_conn_group_tgt, 'conn_group3': t_conn_group3, 'conn_chain': t_conn_chain,
 }
 CONN_TEMPLATES = [k for k in TEMPLATES if k.startswith('conn_')]
 NO_CONN_TEMPLATES = [k for k in TEMPLATES if not k.startswith('conn_')]
